@@ -207,7 +207,7 @@ Example C12_example_cycle :
 Proof.
   cbv zeta. split; [|split].
   - apply nodupN_correct. reflexivity.
-  - apply Proofs.Deletion.complete_profile_sound. reflexivity.
+  - apply Proofs.SP.complete_profile_b. reflexivity.
   - repeat split; vm_compute; reflexivity.
 Qed.
 
@@ -221,6 +221,6 @@ Example C12_example_toc :
   (* restricting to the core {1,2,4} keeps the obstruction: lower bound 1 for every extension *)
   min_vot_del (restrict_alts [1;2;4] alts) (map (restrict_order [1;2;4]) p) = 1%nat.
 Proof.
-  cbv zeta. split; [apply Proofs.Deletion.complete_profile_sound; reflexivity|].
+  cbv zeta. split; [apply Proofs.SP.complete_profile_b; reflexivity|].
   repeat split; vm_compute; reflexivity.
 Qed.
